@@ -119,6 +119,29 @@ def getBackend (arg : BackendArg) (cfg : Config) : Py BackendClass :=
   | .name s => getBackendByName s
   | .cls c => .ok c
 
+/-- The external entry point a backend instance hands the problem to (`_call_solver` of
+backend/sugar_like.py; `config.backend_path or "sugar"` treats the empty string like `None`). -/
+inductive EntryPoint
+  | subprocess (executable : String)     -- `run_subprocess([path, "/dev/stdin"], ...)`
+  | moduleSolver (module : String)       -- `import m; m.solver(description)`
+  | z3                                   -- the z3 Python API
+  | custom (id : Nat)                    -- whatever the caller's class does
+  deriving DecidableEq, Repr, Inhabited
+
+def sugarPath (cfg : Config) : String :=
+  match cfg.backend_path with
+  | some p => if p = "" then "sugar" else p
+  | none => "sugar"
+
+def BackendClass.entryPoint (cfg : Config) : BackendClass → EntryPoint
+  | .sugar => .subprocess (sugarPath cfg)
+  | .sugarExtended => .subprocess (sugarPath cfg)
+  | .csugar => .moduleSolver "pycsugar"
+  | .enigmaCsp => .moduleSolver "enigma_csp"
+  | .cspuzCore => .moduleSolver "cspuz_core"
+  | .z3 => .z3
+  | .custom id => .custom id
+
 /-- `if use_graph_primitive is None: use_graph_primitive = config.<flag>`. -/
 def resolveFlag (arg : Option Bool) (cfgFlag : Bool) : Bool :=
   match arg with
